@@ -34,6 +34,34 @@ func TestDbgPaths(t *testing.T) {
 				return true
 			})
 		}
+		if os.Getenv("DBG_NORM") != "" {
+			var decls []*ast.FuncDecl
+			for _, d2 := range f.Decls {
+				if x, ok := d2.(*ast.FuncDecl); ok {
+					decls = append(decls, x)
+				}
+			}
+			if rt := os.Getenv("DBG_RECV"); rt != "" && (fd.Recv == nil || nospace(fd.Recv.List[0].Type) != rt) {
+				continue
+			}
+			if os.Getenv("DBG_LOOP") != "" {
+				var lb *ast.BlockStmt
+				ast.Inspect(fd.Body, func(n ast.Node) bool {
+					if fs, ok := n.(*ast.ForStmt); ok && fs.Cond == nil && lb == nil {
+						lb = fs.Body
+					}
+					return true
+				})
+				for _, p := range newNctx(decls).normBlock(fd, lb.List) {
+					fmt.Println(p.String())
+				}
+				continue
+			}
+			for _, p := range newNctx(decls).normPaths(fd) {
+				fmt.Println(p.String())
+			}
+			continue
+		}
 		for _, p := range enumPaths(body) {
 			fmt.Println(p.String())
 		}
